@@ -162,13 +162,13 @@ Proof.
   unfold sv_in. intro H. apply existsb_exists in H as [e [Hin He]]. apply N.eqb_eq in He. now exists e.
 Qed.
 
-Theorem consistent_cleave st body svs newl st' :
-  Consistent st ->
+Theorem consistent_cleave fx st body svs newl st' :
+  Consistent st -> fx_reject fx = true ->
   newl <> 0 -> get_idx st newl = None ->
   (forall s, mapped (f_map st) s = newl -> s = newl) -> (forall b, vcount st b newl = 0) ->
-  f_cleave st body svs newl = Ok st' -> Consistent st'.
+  f_cleave fx st body svs newl = Ok st' -> Consistent st'.
 Proof.
-  intros C Hn0 Hni Hfresh Hnv. unfold f_cleave.
+  intros C Hrej Hn0 Hni Hfresh Hnv. unfold f_cleave. rewrite Hrej.
   destruct (get_idx st body) as [idx|] eqn:Hb; [|discriminate].
   destruct (negb (nodupb svs) || negb (forallb (sv_in idx) svs)) eqn:G1; [discriminate|].
   destruct (forallb (fun s => memN s svs) (supervoxels idx)) eqn:G2; [discriminate|].
@@ -241,6 +241,7 @@ Theorem consistent_renumber fx st old new st' :
   f_renumber fx st old new = Ok st' -> Consistent st'.
 Proof.
   intros C Hfx Hn0. unfold f_renumber. rewrite Hfx. simpl.
+  destruct (fx_reject fx && ((new =? 0) || (old =? 0))); [discriminate|].
   destruct (ahas N.eqb new (f_idx st)) eqn:Hni; [discriminate|].
   destruct (match aget N.eqb new (f_map st) with Some l => negb (l =? 0) | None => false end) eqn:Hnm; [discriminate|].
   destruct (get_idx st old) as [idx|] eqn:Ho; [|discriminate].
@@ -352,8 +353,8 @@ Qed.
 
 Lemma Wf_nil : Wf []. Proof. split; constructor. Qed.
 
-Theorem consistent_merge st target merged st' :
-  Consistent st -> ~ In target merged -> f_merge st target merged = Ok st' -> Consistent st'.
+Theorem consistent_merge fx st target merged st' :
+  Consistent st -> ~ In target merged -> f_merge fx st target merged = Ok st' -> Consistent st'.
 Proof.
   intros C Hnt. unfold f_merge.
   set (ms := nodupN merged).
@@ -362,6 +363,7 @@ Proof.
   { destruct (memN target ms) eqn:E; [|reflexivity]. apply memN_In in E.
     apply (proj1 (nodupN_In _ _)) in E. contradiction. }
   destruct ms as [|m0 msr] eqn:Ems; [discriminate|]. rewrite <- Ems in *.
+  destruct (fx_reject fx && memN target ms); [discriminate|].
   destruct (all_idx st ms) as [midxs|] eqn:Ha; [|discriminate].
   destruct (get_idx st target) as [tidx|] eqn:Ht; [|discriminate].
   destruct (idx_add_all [] midxs) as [mergeIdx| |] eqn:Em; try discriminate.
@@ -1048,6 +1050,7 @@ Proof.
   - apply Ok_inj in H; subst. split; apply grows_refl.
   - apply Ok_inj in H; subst. split; [apply grows_refl|]. cbn [f_vox f_map]. apply grows_fold. intros m x. apply grows_aset.
   - unfold f_merge in H. destruct (nodupN merged); [discriminate|].
+    destruct (fx_reject fx && memN target (n :: l)); [discriminate|].
     destruct (all_idx st (n :: l)); [|discriminate]. destruct (get_idx st target); [|discriminate].
     destruct (idx_add_all [] l0) as [mi| |]; try discriminate. destruct (num_voxels mi =? 0); [discriminate|].
     destruct (idx_add i mi); try discriminate. apply Ok_inj in H; subst. cbn [f_vox f_map].
@@ -1055,7 +1058,9 @@ Proof.
   - unfold f_cleave in H. destruct (get_idx st body); [|discriminate].
     destruct (negb (nodupb svs) || negb (forallb (sv_in i) svs)); [discriminate|].
     destruct (forallb (fun s => memN s svs) (supervoxels i)); [discriminate|].
-    destruct svs; [discriminate|]. destruct (idx_cleave i (n :: svs)) as [[[? ?] ?] ?].
+    destruct svs.
+    { destruct (fx_reject fx); [discriminate|]. apply Ok_inj in H; subst. split; apply grows_refl. }
+    destruct (idx_cleave i (n :: svs)) as [[[? ?] ?] ?].
     apply Ok_inj in H; subst. cbn [f_vox f_map]. split; [apply grows_refl|].
     eapply grows_trans; [apply grows_set_all | apply grows_aset].
   - unfold f_splitsv in H. destruct (get_idx st (mapped (f_map st) sv)); [|discriminate].
@@ -1064,7 +1069,8 @@ Proof.
     destruct (split_sv_blocks (f_vox st) (sv_blocks i sv) sv split remain masks i') as [vx'|] eqn:E; [|discriminate].
     apply Ok_inj in H; subst. cbn [f_vox f_map]. split; [eapply grows_split_sv_blocks; eauto|].
     eapply grows_trans; [apply grows_aset|]. eapply grows_trans; apply grows_aset.
-  - unfold f_renumber in H. destruct (ahas N.eqb new (f_idx st)); [discriminate|].
+  - unfold f_renumber in H. destruct (fx_reject fx && ((new =? 0) || (old =? 0))); [discriminate|].
+    destruct (ahas N.eqb new (f_idx st)); [discriminate|].
     match type of H with (if ?c then _ else _) = _ => destruct c end; [discriminate|].
     destruct (get_idx st old); [|discriminate]. apply Ok_inj in H; subst. cbn [f_vox f_map].
     split; [apply grows_refl|]. eapply grows_trans; [apply grows_set_all | apply grows_aset].
@@ -1130,7 +1136,7 @@ Definition op_guard (fx : fixes) (n : nat) (st : fstate) (o : op) : Prop :=
   | OMerge t ms => ~ In t ms
   | OCleave b svs newl =>
     (* the cleaved body gets an id never used before *)
-    newl <> 0 /\ get_idx st newl = None /\ (forall s, mapped (f_map st) s = newl -> s = newl) /\
+    fx_reject fx = true /\ newl <> 0 /\ get_idx st newl = None /\ (forall s, mapped (f_map st) s = newl -> s = newl) /\
     (forall b', vcount st b' newl = 0)
   | OSplitSV sv split remain masks rl =>
     sv <> 0 /\ fresh_sv st split /\ fresh_sv st remain /\ split <> remain /\ split <> sv /\ remain <> sv /\
@@ -1161,11 +1167,12 @@ Proof.
     + unfold Sized, f_write; cbn [f_vox]. apply sizedv_put_blocks; [exact S | exact Hb].
   - split; [eapply consistent_merge; eauto|].
     unfold f_merge in H. destruct (nodupN merged); [discriminate|].
+    destruct (fx_reject fx && memN target (n0 :: l)); [discriminate|].
     destruct (all_idx st (n0 :: l)); [|discriminate]. destruct (get_idx st target); [|discriminate].
     destruct (idx_add_all [] l0) as [mi| |]; try discriminate. destruct (num_voxels mi =? 0); [discriminate|].
     destruct (idx_add i mi); try discriminate. apply Ok_inj in H; subst. exact S.
-  - destruct G as (G1 & G2 & G3 & G4). split; [eapply consistent_cleave; eauto|].
-    unfold f_cleave in H. destruct (get_idx st body); [|discriminate].
+  - destruct G as (G0 & G1 & G2 & G3 & G4). split; [eapply consistent_cleave; eauto|].
+    unfold f_cleave in H. rewrite G0 in H. destruct (get_idx st body); [|discriminate].
     destruct (negb (nodupb svs) || negb (forallb (sv_in i) svs)); [discriminate|].
     destruct (forallb (fun s => memN s svs) (supervoxels i)); [discriminate|].
     destruct svs; [discriminate|]. destruct (idx_cleave i (n0 :: svs)) as [[[? ?] ?] ?].
@@ -1179,7 +1186,8 @@ Proof.
       destruct (split_sv_blocks (f_vox st) (sv_blocks i sv) sv split remain masks i') as [vx'|] eqn:E; [|discriminate].
       apply Ok_inj in H; subst. unfold Sized; cbn [f_vox]. eapply sizedv_split_sv_blocks; eauto.
   - destruct G as (G1 & G2). split; [eapply consistent_renumber; eauto|].
-    unfold f_renumber in H. destruct (ahas N.eqb new (f_idx st)); [discriminate|].
+    unfold f_renumber in H. destruct (fx_reject fx && ((new =? 0) || (old =? 0))); [discriminate|].
+    destruct (ahas N.eqb new (f_idx st)); [discriminate|].
     match type of H with (if ?c then _ else _) = _ => destruct c end; [discriminate|].
     destruct (get_idx st old); [|discriminate]. apply Ok_inj in H; subst. exact S.
 Qed.
